@@ -329,7 +329,7 @@ RECEIVER_CLASSES = {
 }
 
 
-def resolve_helper(prog, cls, module, call, public=(), exclude=()):
+def resolve_helper(prog, cls, module, call, public=(), exclude=(), generators=False):
     """(helper FunctionDef, defining ClassInfo or None, skip_first_param) for a call to a private helper of the same
     class (self.x / cls.x / ClassName.x) or module (x); None when the callee is not such a helper."""
     f = call.func
@@ -381,7 +381,7 @@ def resolve_helper(prog, cls, module, call, public=(), exclude=()):
         if fn is None:
             return None
         # module-level functions of the library are few and are helpers by nature: all of them are inlinable
-        if name in exclude or any(isinstance(x, (ast.Yield, ast.YieldFrom)) for x in ast.walk(fn)):
+        if name in exclude or (not generators and any(isinstance(x, (ast.Yield, ast.YieldFrom)) for x in ast.walk(fn))):
             return None
         return fn, None, False
     else:
@@ -702,6 +702,93 @@ class _Inliner:
         inner_names = caller_names | set().union(*[_names_in(s) for s in new_body]) if new_body else caller_names
         return prefix + self._block(new_body, inner_names, stack + [fn.name])
 
+    def _gen_helper(self, st, caller_names, stack):
+        """``T = set(g(..))`` / ``T = list(g(..))`` / ``T.update(g(..))`` / ``T.extend(g(..))`` / ``return list(g(..))`` with ``g`` a
+        generator helper (no ``return`` of its own): the helper's body with every ``yield E`` turned into ``T.add(E)`` /
+        ``T.append(E)`` and every ``yield from G`` into ``T.update(G)`` / ``T.extend(G)``. None when the statement is not of
+        that form."""
+        pre, tname, adder, ext, tail = [], None, None, None, []
+        v = st.value if isinstance(st, (ast.Assign, ast.Return, ast.Expr)) else None
+        if isinstance(st, ast.Assign) and len(st.targets) == 1 and isinstance(st.targets[0], ast.Name) and isinstance(v, ast.Call) and \
+                isinstance(v.func, ast.Name) and v.func.id in ('set', 'list') and len(v.args) == 1 and not v.keywords and isinstance(v.args[0], ast.Call):
+            tname, call = st.targets[0].id, v.args[0]
+            adder, ext = ('add', 'update') if v.func.id == 'set' else ('append', 'extend')
+            pre = [ast.Assign(targets=[ast.Name(id=tname, ctx=ast.Store())], value=ast.Call(func=ast.Name(id=v.func.id, ctx=ast.Load()), args=[], keywords=[]),
+                              lineno=st.lineno)]
+        elif isinstance(st, ast.Return) and isinstance(v, ast.Call) and isinstance(v.func, ast.Name) and v.func.id in ('set', 'list') and \
+                len(v.args) == 1 and not v.keywords and isinstance(v.args[0], ast.Call):
+            self.counter += 1
+            tname, call = f'_gz{self.counter}', v.args[0]
+            adder, ext = ('add', 'update') if v.func.id == 'set' else ('append', 'extend')
+            pre = [ast.Assign(targets=[ast.Name(id=tname, ctx=ast.Store())], value=ast.Call(func=ast.Name(id=v.func.id, ctx=ast.Load()), args=[], keywords=[]),
+                              lineno=st.lineno)]
+            tail = [ast.Return(value=ast.Name(id=tname, ctx=ast.Load()))]
+        elif isinstance(st, ast.Expr) and isinstance(v, ast.Call) and isinstance(v.func, ast.Attribute) and v.func.attr in ('update', 'extend') and \
+                isinstance(v.func.value, ast.Name) and len(v.args) == 1 and not v.keywords and isinstance(v.args[0], ast.Call):
+            tname, call = v.func.value.id, v.args[0]
+            adder, ext = ('add', 'update') if v.func.attr == 'update' else ('append', 'extend')
+        else:
+            return None
+        r = resolve_helper(self.prog, self.cls, self.module, call, self.public, self.exclude, generators=True)
+        if r is None:
+            return None
+        fn, owner, skip = r
+        if fn.name in stack or len(stack) >= self.depth:
+            return None
+        if not any(isinstance(n, (ast.Yield, ast.YieldFrom)) for n in walk_no_nested(fn)):
+            return None
+        if any(isinstance(n, ast.Return) for n in walk_no_nested(fn)):
+            return None
+        try:
+            binding = _bind(fn, call, skip)
+        except NoInline:
+            return None
+        stored = stored_names(fn)
+        self.counter += 1
+        renames, prefix = {}, []
+        for p_ in list(binding):
+            if p_ in stored:
+                new = p_ if p_ not in caller_names else f'{p_}__{fn.name.strip("_")}{self.counter}'
+                prefix.append(ast.Assign(targets=[ast.Name(id=new, ctx=ast.Store())], value=binding.pop(p_), lineno=st.lineno))
+                if new != p_:
+                    renames[p_] = new
+        for name in stored:
+            if name in caller_names and name not in renames and name not in func_params(fn):
+                renames[name] = f'{name}__{fn.name.strip("_")}{self.counter}'
+        body = [_Subst(binding, renames).visit(clone(s_)) for s_ in _body_no_doc(fn)]
+        ok = [True]
+
+        def tcall(meth, arg):
+            return ast.Expr(value=ast.Call(func=ast.Attribute(value=ast.Name(id=tname, ctx=ast.Load()), attr=meth, ctx=ast.Load()), args=[arg], keywords=[]))
+
+        class Y(ast.NodeTransformer):
+            def visit_Expr(self, n):
+                if isinstance(n.value, ast.Yield):
+                    return ast.copy_location(tcall(adder, n.value.value if n.value.value is not None else ast.Constant(value=None)), n)
+                if isinstance(n.value, ast.YieldFrom):
+                    return ast.copy_location(tcall(ext, n.value.value), n)
+                return n
+
+            def visit_FunctionDef(self, n):
+                return n
+
+            def visit_Lambda(self, n):
+                return n
+        body = [Y().visit(b_) for b_ in body]
+        if any(isinstance(x, (ast.Yield, ast.YieldFrom)) for b_ in body for x in walk_no_nested(b_)):
+            return None
+        new_body = pre + prefix + body + tail
+        for x in new_body:
+            ast.copy_location(x, st)
+            for y in ast.walk(x):
+                if isinstance(y, (ast.stmt, ast.expr)) and not hasattr(y, 'lineno'):
+                    ast.copy_location(y, st)
+        for s_ in prefix + body:
+            self._mark(s_, fn, owner)
+        self.inlined.append(fn.name)
+        inner_names = caller_names | set().union(*[_names_in(s_) for s_ in new_body])
+        return self._block(new_body, inner_names, stack + [fn.name])
+
     def _hoist(self, st, caller_names, stack):
         """Calls to multi-statement helpers nested inside the expressions of a simple statement (or an if test) are
         hoisted into ``tmp = helper(...)`` statements placed before it (evaluation order is irrelevant for shape rules)."""
@@ -773,7 +860,9 @@ class _Inliner:
             stmts.extend(pre)
             stmts.append(st2)
         for st in stmts:
-            rep = self._stmt_helper(st, caller_names, stack)
+            rep = self._gen_helper(st, caller_names, stack)
+            if rep is None:
+                rep = self._stmt_helper(st, caller_names, stack)
             if rep is not None:
                 out.extend(rep)
                 continue
@@ -842,12 +931,104 @@ def inline(prog, cls, fn, public=(), depth=3, module=None, exclude=()):
     new._cls = getattr(fn, '_cls', cls)
     new._orig = fn
     fold_getattr(new)
+    scalarize_records(prog, new)
     ast.fix_missing_locations(new)
     for node in ast.walk(new):
         for child in ast.iter_child_nodes(node):
             child._parent = node
     cache[key] = new
     return new
+
+
+def _namedtuples(prog):
+    """{type name: [field, ...]} for every module-level ``N = namedtuple('N', [...])`` of the library"""
+    cache = prog.__dict__.get('_namedtuple_cache')
+    if cache is not None:
+        return cache
+    out = {}
+    for m in prog.modules.values():
+        for name, v in getattr(m, 'assigns', {}).items():
+            if isinstance(v, ast.Call) and call_name(v) == 'namedtuple' and len(v.args) >= 2:
+                f = v.args[1]
+                fields = None
+                if isinstance(f, (ast.List, ast.Tuple)) and all(isinstance(e, ast.Constant) and isinstance(e.value, str) for e in f.elts):
+                    fields = [e.value for e in f.elts]
+                elif isinstance(f, ast.Constant) and isinstance(f.value, str):
+                    fields = f.value.replace(',', ' ').split()
+                if fields:
+                    out[name] = fields
+    prog.__dict__['_namedtuple_cache'] = out
+    return out
+
+
+def scalarize_records(prog, fn):
+    """In place: a local that is only ever bound to ``N(...)`` with N a namedtuple type of the library and only ever read as
+    ``x.<field>`` is replaced by one local per field (``x__field``). After a helper that returns such a record has been
+    inlined this gives back the plain assignments the helper's caller would have had."""
+    nts = _namedtuples(prog)
+    if not nts:
+        return fn
+    cands = {}
+    for n in walk_no_nested(fn):
+        if isinstance(n, ast.Assign) and len(n.targets) == 1 and isinstance(n.targets[0], ast.Name) and isinstance(n.value, ast.Call) and \
+                call_name(n.value) in nts and not any(isinstance(a, ast.Starred) for a in n.value.args) and all(k.arg for k in n.value.keywords):
+            cands.setdefault(n.targets[0].id, []).append(n)
+    if not cands:
+        return fn
+    parents = {}
+    for node in ast.walk(fn):
+        for ch in ast.iter_child_nodes(node):
+            parents[id(ch)] = node
+    for x, assigns in list(cands.items()):
+        tnames = {call_name(a.value) for a in assigns}
+        if len(tnames) != 1:
+            cands.pop(x)
+            continue
+        fields = nts[next(iter(tnames))]
+        ok = True
+        for n in ast.walk(fn):
+            if isinstance(n, ast.Name) and n.id == x:
+                par = parents.get(id(n))
+                if isinstance(n.ctx, ast.Store):
+                    if not (isinstance(par, ast.Assign) and par in assigns):
+                        ok = False
+                elif not (isinstance(par, ast.Attribute) and par.value is n and par.attr in fields and isinstance(par.ctx, ast.Load)):
+                    ok = False
+        if not ok:
+            cands.pop(x)
+    if not cands:
+        return fn
+
+    class R(ast.NodeTransformer):
+        def visit_Attribute(self, n):
+            if isinstance(n.value, ast.Name) and n.value.id in cands:
+                return ast.copy_location(ast.Name(id=f'{n.value.id}__{n.attr}', ctx=ast.Load()), n)
+            return self.generic_visit(n)
+
+    def block(stmts):
+        out = []
+        for st in stmts:
+            if isinstance(st, ast.Assign) and len(st.targets) == 1 and isinstance(st.targets[0], ast.Name) and st.targets[0].id in cands and \
+                    any(st is a for a in cands[st.targets[0].id]):
+                x = st.targets[0].id
+                fields = nts[call_name(st.value)]
+                vals = dict(zip(fields, st.value.args))
+                vals.update({k.arg: k.value for k in st.value.keywords})
+                for f in fields:
+                    v = vals.get(f, ast.Constant(value=None))
+                    out.append(ast.copy_location(ast.Assign(targets=[ast.Name(id=f'{x}__{f}', ctx=ast.Store())], value=R().visit(v), lineno=st.lineno), st))
+                continue
+            for field in ('body', 'orelse', 'finalbody'):
+                v = getattr(st, field, None)
+                if isinstance(v, list) and v and isinstance(v[0], ast.stmt):
+                    setattr(st, field, block(v))
+            for h in getattr(st, 'handlers', []) or []:
+                h.body = block(h.body)
+            out.append(st)
+        return out
+    fn.body = block(fn.body)
+    R().visit(fn)
+    return fn
 
 
 # ---------------------------------------------------------------------------
@@ -1094,6 +1275,19 @@ def _split_ifexp(e, conds, nodes):
             out += _split_ifexp(e.orelse, conds + [ntt], nodes + [nt])
         return out
     return [(conds, nodes, e)]
+
+
+def split_target_ifexp(outcomes):
+    """Outcomes whose *target* expression is a conditional expression, split into one outcome per branch (path conditions
+    extended by the test / its negation) - the same resolution branch_values applies to values."""
+    out = []
+    for o in outcomes:
+        if isinstance(o.target, ast.IfExp):
+            for conds, nodes, e in _split_ifexp(o.target, list(o.conds), list(o.cond_nodes)):
+                out.append(Outcome(conds, o.value, o.stmt, nodes, target=e))
+        else:
+            out.append(o)
+    return out
 
 
 def _replace_node(root, target, repl):
